@@ -2,7 +2,7 @@
 import rpcflow
 
 SUB = "c09"
-MODULES = ["Mtv.Props.C09"]
+MODULES = ["Mtv.Props.C09", "Mtv.Props.ClientImpl"]
 THEOREMS = [
     "Mtv.Client.own_result",
     "Mtv.Client.request_owner_unique",
@@ -11,13 +11,20 @@ THEOREMS = [
     "Mtv.Client.deliver_consumes",
     "Mtv.Client.one_call_per_caller",
     "Mtv.Client.container_like_plain",
+    # the goroutine-level model and its refinement of the machine above (Props/ClientImpl.lean)
+    "Mtv.Impl.impl_refines_spec",
+    "Mtv.Impl.impl_matches_source",
+    "Mtv.Impl.impl_order_matches_source",
+    "Mtv.Impl.recv_flatten",
+    "Mtv.Impl.impl_refinement_needs_causal_server",
+    "Mtv.Impl.impl_own_result",
 ]
 RULE = ('scenarios on the real client (resumed session, scripted peer over loopback TCP): 1..8 (thorough 16) concurrent callers expecting an object, Bool, Vector<long>, Vector<future_salt> (decoder hints) or rpc_error; answers in a random permutation, randomly partitioned into plain messages and containers with pong / msgs_ack noise, a random subset gzip-packed; second rounds and stray duplicate results; rpc_errors of the API parametrised families (FLOOD_WAIT_n, SLOWMODE_WAIT_n, FILE_MIGRATE_n, FILE_PART_n_MISSING, TAKEOUT_INIT_DELAY_n, USER_MIGRATE_n) with a different parameter for every caller, in one round and in successive rounds of one process, the delivered error compared in full (code, family name, parameter, the numbers its text mentions); results of about and beyond 2^20 bytes (an object with a bytes field of 2^20-300 .. 2^21 bytes, thorough 16 MB) as plain messages followed by answers of other callers; requests encoded while the write of another caller is in progress and the receive loop acknowledges a message (all goroutines on one processor, and on all) - the peer checks every request and every msgs_ack it receives byte for byte.; a request in flight rejected with bad_server_salt while the session store fails at exactly that save (in-memory and file store, other callers pending, back to back, in a container, repeatedly); server msg_ids anywhere in the unsigned 64-bit range (plan step I<msg_id>: bit 63 set, across 2^63, just below 2^64, near zero, 1 and 3 modulo 4; a server clock far ahead); calls that send other requests than ping (msgs_state_req, msg_resend_req, ping_delay_disconnect, req_pq, req_DH_params, set_client_DH_params, rpc_drop_answer, get_future_salts, destroy_session). Each trace is judged by the Go oracle (each call returns the result addressed to its own request, once) and replayed through the Lean machine. distinct = distinct scenarios')
 
 
 def run(ctx):
     ctx.assumptions += ["the Go runtime's scheduling during a run decides the interleaving actually exercised (sampled, not enumerated)", 'warnings are drained by the harness (a full user warning channel would block the receive loop: environment assumption)']
-    return rpcflow.run(ctx, SUB, MODULES, THEOREMS, RULE)
+    return rpcflow.run(ctx, SUB, MODULES, THEOREMS, RULE, gen_hook=rpcflow.regen_skeleton)
 
 
 def replay(ctx, path):
